@@ -116,12 +116,14 @@ def slim(case):
 
 def replay(chk, drv, path):
     with open(path) as fh:
-        rp = json.load(fh)["replay"]
+        doc = json.load(fh)
+    rp, seed = doc["replay"], doc.get("seed", chk.seed)     # the seed of the run that found it
     mode = rp["args"][0]
     if rp.get("case") is None or mode == "extra":
         vlib.drive_cases(chk, drv, ["extra"], None, [50], tag="replay")
     else:
-        vlib.drive_cases(chk, drv, [mode], [rp["case"]], [chk.seed], tag="replay")
+        env = dict(os.environ, VERIF_IDX_BASE=str(rp.get("idx") or 0))
+        vlib.drive_cases(chk, drv, [mode], [rp["case"]], [seed], tag="replay", env=env)
 
 
 MANIFEST = {
